@@ -35,6 +35,10 @@ t('C06', 'E1', 'deviation-bounded and full-product fault enumeration over every 
   'Fault alphabets of 24 OCSP and 20 CRL answers (transport errors, timeouts, non-200 with genuine bodies, empty/truncated/oversized/garbage bodies, OCSP error statuses, cancellation before/during/after a request, 32 MiB and endless bodies) x cache faults with DiscardCacheError on/off x non-http URL strings, full product on one certificate with up to (3,3) sources and bounded deviations on chains of length 3..4; fail-closed implication plus an isolation table.',
   'Evidence of good standing is the class of the answer actually delivered. Panics are judged by C09.')
 
+t('C17', 'E2', 'controlled scheduler over the real goroutines: exhaustive enumeration of all seam-operation interleavings with panic / cancellation injection, plus an auxiliary free-running -race pass',
+  'The goroutines that ValidateContext / ocsp.CheckStatus start are parked inside the harness RoundTripper, Fetcher and Cache; quiescence is read from goroutine dumps by creation ancestry; every interleaving (up to 2 520 per answer pattern) is executed with a panic or cancellation injected at every position. Checked per schedule: results equal the sequential reference, no deadlock state, no goroutine alive after return, injected panic resurfaces on the caller with its value, cancellation fails closed; two concurrent callers sharing validator/client/fetcher/cache each get the reference result.',
+  'Interleavings are at seam granularity; unsynchronised memory accesses between seams are left to the auxiliary -race pass (1..32 callers), which samples schedules and is reported as auxiliary.')
+
 checks = []
 na = []
 for p in props:
